@@ -192,7 +192,7 @@ package v2
 //@   nopanic
 //@   overflow: assumed
 //@   rely[no_earlier_io_fault] fpos(fw.file) == flen(fw.file) && flen(fw.file) >= 64 + fw.header.NameLength
-//@   modifies *
+//@   modifies fw.buffer.entries, fw.buffer.currentSize, arrays(fw.buffer.entries), fw.closed, fw.blockCount, fw.entryCount, all(fw.header), file(fw.file)
 //@   ensures[rejects_unencodable] (len(entry.Key) < 1 || len(entry.Key) > 65535 || len(entry.Data) > 2147483647) ==> err != nil
 //@   csensures[rejected_entry_not_buffered] (len(entry.Key) < 1 || len(entry.Key) > 65535 || len(entry.Data) > 2147483647) ==> len(fw.buffer.entries) == old(len(fw.buffer.entries)) && fw.buffer.currentSize == old(fw.buffer.currentSize)
 
@@ -251,7 +251,8 @@ package v2
 //@   property C29 C01
 //@   nopanic
 //@   lossless
-//@   modifies *
+//@   modifies fw.file, fw.header
+//@   ensures[parts_set] err == nil ==> fw.file != nil && fw.header != nil && fresh(fw.file) && fresh(fw.header)
 //@   ensures[name_too_long_rejected] len(old(fw.swampName)) > 65535 ==> err != nil
 //@   ensures[layout] err == nil ==> flen(fw.file) == 64 + len(old(fw.swampName)) && fpos(fw.file) == flen(fw.file)
 //@   ensures[name_length_field] err == nil ==> fbyte(fw.file, 44) + 256 * fbyte(fw.file, 45) == len(old(fw.swampName))
@@ -261,9 +262,10 @@ package v2
 // NewFileReader (properties C29, C04): for a V3 file the reported swamp name is exactly the
 // NameLength bytes that follow the header; nothing is allocated beyond the size of the file.
 //@ func NewFileReader(filePath) (fr, err)
-//@   property C29 C04
+//@   property C29 C04 C03
 //@   nopanic
-//@   modifies *
+//@   modifies ghost("stat_file")
+//@   ensures[reader_ready] err == nil ==> fr != nil && fresh(fr) && fr.file != nil
 //@   ensures[v3_name_is_the_stored_bytes] err == nil && fr.header.Version == 3 ==> len(fr.swampName) == fr.header.NameLength && forall i in 0..len(fr.swampName): fr.swampName[i] == fbyte(fr.file, 64 + i)
 //@   ensures[v3_name_length_field] err == nil && fr.header.Version == 3 ==> fr.header.NameLength == fbyte(fr.file, 44) + 256 * fbyte(fr.file, 45)
 //@   ensures[positioned_at_data] err == nil ==> fpos(fr.file) == 64 + ite(fr.header.Version == 3, fr.header.NameLength, 0)
@@ -293,3 +295,67 @@ package v2
 //@   loop 0 invariant[progress] 0 <= offset && offset <= len(uncompressed) && len(entries) == i && i <= header.EntryCount && (!isnil(entries) ==> fresh(entries))
 //@   ensures[checksum_verified] err == nil ==> U_crc32(compressedData) == old(header.Checksum)
 //@   ensures[count] err == nil ==> blk != nil && len(blk.Entries) == old(header.EntryCount)
+
+// ---------------------------------------------------------------------------------------
+// Compaction (property C03). The rewritten file is built in <file>.compact and renamed over the
+// original. Call-site clauses (before CALLEE) state the protocol:
+//   stale_temp_removed_first     the temp path is removed immediately before the temp writer is
+//                                created (NewFileWriterWithName appends to an existing file, so a
+//                                leftover temp from an interrupted run would be resurrected)
+//   writes_live_binding          every entry written is an insert of a (key, value) of the live index
+//   renames_only_complete_temp   rename happens only after every key of the live index was written
+//                                and the temp writer was closed (flushed + fsynced) without error
+//@ func NewFileWriterWithName(filePath, maxBlockSize, swampName) (fw, err)
+//@   property C03 C29
+//@   nopanic
+//@   modifies ghost("stat_file")
+//@   ensures[writer_ready] err == nil ==> fw != nil && fresh(fw) && fw.buffer != nil && fw.header != nil && fw.file != nil
+//@   ensures[failed] err != nil ==> fw == nil
+
+//@ func (*FileWriter).Close(fw) (result)
+//@   property C03 C02
+//@   overflow: assumed
+//@   rely[no_earlier_io_fault] fpos(fw.file) == flen(fw.file) && flen(fw.file) >= 64 + fw.header.NameLength
+//@   modifies fw.buffer.entries, fw.buffer.currentSize, fw.closed, fw.blockCount, fw.entryCount, all(fw.header), file(fw.file)
+//@   csensures[closed_file_is_durable] result == nil && !old(fw.closed) ==> fsynced(fw.file) == flen(fw.file) && len(fw.buffer.entries) == 0
+//@   csensures[append_only] forall j in 64..old(flen(fw.file)): fbyte(fw.file, j) == old(fbyte(fw.file, j))
+
+// Reader-side helpers used by Compact: assumed (opaque) to touch only the reader's own file position
+// and freshly allocated memory.
+//@ func (*FileReader).LoadIndex(fr) (index, name, err)
+//@   opaque
+//@   modifies filepos(fr.file)
+//@   ensures err == nil ==> index != nil
+//@ func (*FileReader).CalculateFragmentation(fr) (frag, live, total, err)
+//@   opaque
+//@   modifies filepos(fr.file)
+//@ func (*FileReader).Close(fr) (err)
+//@   opaque
+
+//@ func CompactFromIndex(filePath, maxBlockSize, swampName, index, totalEntries) (res, result)
+//@   property C03
+//@   nopanic
+//@   overflow: assumed
+//@   modifies *
+//@   before NewFileWriterWithName [stale_temp_removed_first] calledwith("Remove", 0, arg0) && calls("Rename") == old(calls("Rename"))
+//@   before FileWriter.WriteEntry [writes_live_binding] arg1.Operation == OpInsert && has(index, arg1.Key) && sliceid(arg1.Data) == sliceid(index[arg1.Key]) && len(arg1.Data) == len(index[arg1.Key])
+//@   before Rename [renames_only_complete_temp] (forall k in keys(index): visited(k)) && isnil(lastret("FileWriter.Close")) && calls("FileWriter.Close") == old(calls("FileWriter.Close")) + 1
+//@   before Rename [renames_temp_over_original] calledwith("NewFileWriterWithName", 0, arg0) && arg1 == filePath
+//@   loop 0 invariant[index_untouched] mapsame(index)
+//@   ensures[failure_keeps_original] result != nil ==> calls("Rename") == old(calls("Rename")) || !isnil(lastret("Rename"))
+//@   ensures[reports_compacted_only_after_rename] res != nil && res.Compacted ==> calls("Rename") == old(calls("Rename")) + 1 && isnil(lastret("Rename"))
+
+// Compact (CLI / inline / close / forced compaction): same protocol as CompactFromIndex; the live
+// index is the one LoadIndex returned for the file being compacted.
+//@ func (*Compactor).Compact(c) (res, result)
+//@   property C03
+//@   nopanic
+//@   overflow: assumed
+//@   modifies *
+//@   before NewFileWriterWithName [stale_temp_removed_first] calledwith("Remove", 0, arg0) && calls("Rename") == old(calls("Rename"))
+//@   before FileWriter.WriteEntry [writes_live_binding] arg1.Operation == OpInsert && has(index, arg1.Key) && sliceid(arg1.Data) == sliceid(index[arg1.Key]) && len(arg1.Data) == len(index[arg1.Key])
+//@   before Rename [renames_only_complete_temp] (forall k in keys(index): visited(k)) && isnil(lastret("FileWriter.Close")) && calls("FileWriter.Close") == old(calls("FileWriter.Close")) + 1 && isnil(lastret("FileReader.LoadIndex", 2))
+//@   before Rename [renames_temp_over_original] calledwith("NewFileWriterWithName", 0, arg0) && arg1 == c.filePath
+//@   loop 0 invariant[index_untouched] mapsame(index)
+//@   ensures[at_most_one_rename] calls("Rename") <= old(calls("Rename")) + 1
+//@   ensures[reports_compacted_only_after_rename] res != nil && res.Compacted ==> calls("Rename") == old(calls("Rename")) + 1 && isnil(lastret("Rename"))
